@@ -8,7 +8,7 @@ Open Scope Z_scope.
 Lemma st_eta s :
   s = mkSt (scopes s) (ctxs s) (included s) (nqlabels s) (nclabels s) (alias_labels s) (qreg_sizes s)
         (alias_sizes s) (fn_sizes s) (fn_maps s) (creg_sizes s) (gates s) (subs s) (label_levels s)
-        (qdepth s) (cdepth s) (mod_qregs s) (mod_cregs s) (num_qubits s) (num_clbits s).
+        (qdepth s) (cdepth s) (mod_qregs s) (mod_cregs s) (num_qubits s) (num_clbits s) (gstack s).
 Proof. destruct s; reflexivity. Qed.
 
 (* entering and leaving a block restores the stacks exactly *)
@@ -46,7 +46,7 @@ Theorem shadow_visible_in_block s x v s1 :
   add_var (push_scope (push_ctx CBlock s)) x v = Ok s1 -> get_visible s1 x = Some v.
 Proof.
   intros Hne. unfold add_var. destruct (smemk x _) eqn:Hm; [discriminate|]. intros [= <-].
-  destruct s as [scs cs inc nq nc al qs als fs fm crs gs sb ll qd cd mq mc n1 n2].
+  destruct s as [scs cs inc nq nc al qs als fs fm crs gs sb ll qd cd mq mc n1 n2 gst].
   unfold get_visible, in_global, in_function, in_gate, in_block, nscopes, top_ctx, curr_scope, push_scope,
     push_ctx, with_scopes, with_ctxs in *. simpl in *.
   destruct scs as [|sc scs']; simpl; [contradiction|].
@@ -58,7 +58,7 @@ Theorem block_reads_enclosing_global s x :
   ctxs s <> [] -> in_global s = true ->
   get_visible (push_scope (push_ctx CBlock s)) x = get_visible s x.
 Proof.
-  destruct s as [scs cs inc nq nc al qs als fs fm crs gs sb ll qd cd mq mc n1 n2].
+  destruct s as [scs cs inc nq nc al qs als fs fm crs gs sb ll qd cd mq mc n1 n2 gst].
   intros Hne Hg. unfold get_visible. rewrite Hg.
   cbv [in_global in_function in_gate in_block nscopes top_ctx curr_scope global_scope push_scope push_ctx
        with_scopes with_ctxs scopes ctxs] in *.
